@@ -35,6 +35,9 @@ class Ctx(object):
         # independence slice per query (good for large linear/UF path conditions; do not
         # use with nonlinear arithmetic, where the incremental core answers unknown)
         self.incremental = incremental
+        self.second_every = 0     # re-decide every n-th query with /usr/bin/z3 (0 = off)
+        self.second_offset = 0
+        self._second_count = 0
         self.timeout_ms = timeout_ms
         self.max_depth = max_depth
         self.label = label
@@ -204,9 +207,43 @@ class Ctx(object):
         self.stats['solver_s'] += dt
         rs = str(r)
         self.stats[rs] = self.stats.get(rs, 0) + 1
+        if self.second_every and rs in ('sat', 'unsat') and not full:
+            self._second_count += 1
+            if (self._second_count + self.second_offset) % self.second_every == 0:
+                self._second_solver(s, rs)
         if rs == 'sat':
             return 'sat', s.model()
         return rs, None
+
+    def _second_solver(self, solver, first):
+        """Re-decide the query with the z3 4.8.12 binary (a different build and
+        version of the solver); a disagreement or an (error line makes the run
+        inconclusive."""
+        import subprocess, tempfile, os as _os
+        txt = solver.to_smt2()
+        fd, path = tempfile.mkstemp(suffix='.smt2')
+        try:
+            with _os.fdopen(fd, 'w') as fh: fh.write(txt)
+            try:
+                p = subprocess.run(['/usr/bin/z3', '-T:60', path], capture_output=True, text=True, timeout=90)
+                out = p.stdout.strip().split('\n')[0] if p.stdout.strip() else ''
+                err = '(error' in p.stdout
+            except Exception as ex:
+                out, err = 'failed: %s' % ex, False
+        finally:
+            try: _os.remove(path)
+            except OSError: pass
+        self.stats['second_solver_queries'] = self.stats.get('second_solver_queries', 0) + 1
+        if err:
+            self.stats['second_solver_errors'] = self.stats.get('second_solver_errors', 0) + 1
+            self.unknowns.append(dict(label='second solver reported an (error line', info=None))
+        elif out in ('sat', 'unsat'):
+            if out == first:
+                self.stats['second_solver_agree'] = self.stats.get('second_solver_agree', 0) + 1
+            else:
+                self.unknowns.append(dict(label='second solver disagrees (%s vs %s)' % (first, out), info=None))
+        else:
+            self.stats['second_solver_inconclusive'] = self.stats.get('second_solver_inconclusive', 0) + 1
 
     def feasible(self, e):
         r, _ = self.solve(e)
